@@ -6,7 +6,6 @@ import (
 	"bytes"
 	"crypto/sha256"
 	"fmt"
-	"reflect"
 
 	"github.com/btcsuite/btcd/wire/v2"
 	"github.com/lightningnetwork/lnd/channeldb"
@@ -668,8 +667,7 @@ func (s *Sim) cmpRetransmit(x int, got, want []lnwire.Message) error {
 		case *lnwire.CommitSig:
 			w := want[i].(*lnwire.CommitSig)
 			if !s.P.ChanType.IsTaproot() {
-				if g.CommitSig != w.CommitSig ||
-					!reflect.DeepEqual(g.HtlcSigs, w.HtlcSigs) {
+				if !sameSigs(g, w) {
 
 					return violationf("%s retransmitted a "+
 						"different commit_sig", sideName(x))
@@ -693,6 +691,20 @@ func (s *Sim) cmpRetransmit(x int, got, want []lnwire.Message) error {
 		}
 	}
 	return nil
+}
+
+func sameSigs(a, b *lnwire.CommitSig) bool {
+	if !bytes.Equal(a.CommitSig.RawBytes(), b.CommitSig.RawBytes()) ||
+		len(a.HtlcSigs) != len(b.HtlcSigs) {
+
+		return false
+	}
+	for i := range a.HtlcSigs {
+		if !bytes.Equal(a.HtlcSigs[i].RawBytes(), b.HtlcSigs[i].RawBytes()) {
+			return false
+		}
+	}
+	return true
 }
 
 func sameUpdate(a, b lnwire.Message) error {
